@@ -99,14 +99,17 @@ func (c *Chain) IsCanonical(h *Header) bool {
 
 // Adversarial variants derived from a canonical header.
 const (
-	AdvForged      = "forged"       // other lineage: can never be verified
-	AdvForked      = "forked"       // same lineage, different content (salt) => hash link to/from it breaks
-	AdvWrongChain  = "wrong_chain"  // other chain id
-	AdvFuture      = "future"       // time far ahead of now
-	AdvTimeRegress = "time_regress" // time before genesis
-	AdvBadValidate = "bad_validate"
-	AdvNoChain     = "no_chain"     // empty chain id
-	AdvChainPrefix = "chain_prefix" // chain id cut short by one character
+	AdvForged        = "forged"       // other lineage: can never be verified
+	AdvForked        = "forked"       // same lineage, different content (salt) => hash link to/from it breaks
+	AdvWrongChain    = "wrong_chain"  // other chain id
+	AdvFuture        = "future"       // time far ahead of now
+	AdvTimeRegress   = "time_regress" // time before genesis
+	AdvBadValidate   = "bad_validate"
+	AdvNoChain       = "no_chain"       // empty chain id
+	AdvChainPrefix   = "chain_prefix"   // chain id cut short by one character
+	AdvPanicValidate = "panic_validate" // only while ArmPanics(true)
+	AdvPanicVerify   = "panic_verify"
+	AdvPanicDecode   = "panic_decode"
 )
 
 // Variant derives an adversarial header from canonical c.
@@ -135,6 +138,12 @@ func Variant(c *Header, kind string, salt uint32) *Header {
 		v.T = Epoch.UnixNano() - int64(20*365*24*time.Hour)
 	case AdvBadValidate:
 		v.Flags |= FlagBadValidate
+	case AdvPanicValidate:
+		v.Flags |= FlagPanicValidate
+	case AdvPanicVerify:
+		v.Flags |= FlagPanicVerify
+	case AdvPanicDecode:
+		v.Flags |= FlagPanicDecode
 	}
 	return v.Seal()
 }
